@@ -46,6 +46,7 @@ RULE = (
     "substring keys, objects placed inside / just inside / just outside / far outside each bound; results from the real "
     "matcher for filter_object_results; scenario runs through the manager. non-trivial = call that keeps some and rejects some; "
     "distinct = (function, frame, range kind, is_gt, rejecting criteria present)"
+    " Later additions: 2D objects carrying a 3D position in their camera frame (extrinsics in the registry, either direction); direct calls with both bound families at once; objects exactly on a bound (decided structurally in the ego frame)."
 )
 ASSUMPTIONS = ["per-label lists are aligned with target_labels", "ground-truth confidence is 1.0"]
 DECIDING = ["filter_objects.judged", "filter_object_results.judged", "C10.idempotence_checked", "C10.monotonicity_checked", "C10.mutation_checked"] + [f"C10.rejected_by.{k}" for k in ("label", "attribute", "x", "y", "max_distance", "min_distance", "confidence", "points", "uuid")]
